@@ -568,4 +568,4 @@ func c17Keys(c *Ctx) {
 	}
 }
 
-func c17KeyFile(c *Ctx, n int) {}
+func c17KeyFile(c *Ctx, n int) { sexpInputs(c, n/4) }
